@@ -246,6 +246,8 @@ pub fn gen_c08(g: &mut Gen, tier: &str) {
             g.push(v.0 < 0, Input::new("time_of_dt", vec![v.0, v.1, v.2]));
         }
     }
+    // Times obtained from text (Time::parse, Time::from_str): also "obtainable through the public API"
+    crate::text::gen_time_text(g, n / 4);
 }
 
 pub fn gen_c02(g: &mut Gen, tier: &str) {
